@@ -1,5 +1,5 @@
 """C04 - A loaded voice is exactly what the file says (layout conventions between reader and consumer)."""
-from ..expr import ExprBuilder, show, walk, root_of, stores, to_poly, Poly, canon, success_value
+from ..expr import ExprBuilder, show, walk, root_of, stores, to_poly, Poly, canon, success_value, alternatives
 from .. import paths
 from . import common as cm
 
@@ -388,7 +388,7 @@ def run(ctx):
     # ---- R2
     pn = None
     for path, b in p.bodies.items():
-        if path.startswith("model::parser::model::tree::TreeParser::<S>::parse_node::{closure#"):
+        if path.startswith("model::parser::model::tree::TreeParser::<S>::parse_node::{closure#") or path == "model::parser::model::tree::TreeParser::<S>::parse_node":
             for bb, i, st in b.iter_stmts():
                 if st["k"] == "assign" and st["rv"]["k"] == "aggregate" and st["rv"]["kind"].get("def") == "model::parser::model::tree::Node":
                     pn = (b, bb, i, st)
@@ -399,13 +399,17 @@ def run(ctx):
         eb = ExprBuilder(b).at(bb, i)
         f = dict(zip(st["rv"]["kind"]["fields"], [eb.op(o) for o in st["rv"]["ops"]]))
 
+        srcs_ = set()
+
         def tuple_pos(e):
-            # arg2.1.<k>
-            if e[0] == "field" and e[1][0] == "field" and e[1][2] == "1" and e[1][1][0] == "arg":
+            # R.1.<k> with R = (rest, (id, question, no, yes)): the closure's argument, or the
+            # unwrapped result of the tuple parser when the closure was replaced by `?`
+            if e[0] == "field" and e[1][0] == "field" and e[1][2] == "1":
+                srcs_.add(canon(e[1][1]))
                 return e[2]
             return None
-        pos = {k: tuple_pos(v) for k, v in f.items()}
-        if pos.get("no") == "2" and pos.get("yes") == "3" and pos.get("id") == "0":
+        pos = {k: tuple_pos(v) for k, v in f.items() if k in ("id", "no", "yes")}
+        if pos.get("no") == "2" and pos.get("yes") == "3" and pos.get("id") == "0" and len(srcs_) == 1:
             ctx.ok("C04-R2", "parse_node: token 1 -> id, token 3 -> no, token 4 -> yes (the format writes the no-child first)", cm.loc_of(st["span"]))
         else:
             ctx.fail("C04-R2", b.path, "child order", "node line tokens map to %s, expected no <- 3rd, yes <- 4th" % pos, cm.loc_of(st["span"]))
@@ -610,6 +614,31 @@ def run(ctx):
                 if e[2] == "0":
                     return off, k_
                 return off + k_, (ln - k_ if ln is not None else None)
+            # X[..b] / X[a..] / X[a..b] (as an Index call or a place projection), iter() wrappers
+            rng = None
+            if e[0] == "call" and e[1].endswith("::index") and len(e[2]) == 2:
+                base, rng = e[2]
+            elif e[0] == "idx" and e[2][0] == "agg" and "Range" in e[2][1]:
+                base, rng = e[1], e[2]
+            elif e[0] == "call" and e[1].rsplit("::", 1)[-1] in ("iter", "into_iter", "deref", "as_slice") and len(e[2]) == 1:
+                return slice_view(e[2][0])
+            if rng is not None and rng[0] == "agg":
+                inner = slice_view(base)
+                if inner is None:
+                    return None
+                off, ln = inner
+                nm = dict(zip(rng[3], rng[2])) if len(rng) > 3 and rng[3] else {}
+                kind = rng[1].rsplit("::", 1)[-1]
+                if kind == "RangeTo" and "end" in nm:
+                    return off, to_poly(nm["end"], atomize)
+                if kind == "RangeFrom" and "start" in nm:
+                    a_ = to_poly(nm["start"], atomize)
+                    return off + a_, (ln - a_ if ln is not None else None)
+                if kind == "Range" and "start" in nm and "end" in nm:
+                    a_, b_ = to_poly(nm["start"], atomize), to_poly(nm["end"], atomize)
+                    return off + a_, b_ - a_
+                if kind == "RangeFull":
+                    return off, ln
             return None
         pushes = [(bb, t) for bb, t in fl.calls() if t["callee"]["k"] == "fndef" and cm.callee_name(t["callee"]).endswith("Vec::<T, A>::push")]
         okp = False
@@ -659,10 +688,11 @@ def run(ctx):
             m = ret[2][ret[3].index("msd")]
             okm = False
             for x in walk(m):
-                if x[0] == "call" and x[1].endswith("<impl [T]>::get") and show(x[2][0]) == "lin":
-                    pol = to_poly(x[2][1], atomize)
-                    # 2 * (len div 2): the element after the two halves
-                    if pol == HALF * Poly.const(2):
+                if x[0] == "call" and x[1].endswith("<impl [T]>::get") and len(x[2]) == 2:
+                    # element k of a sub-slice of lin = absolute index offset + k;
+                    # 2 * (len div 2) is the element after the two halves
+                    v_ = slice_view(x[2][0])
+                    if v_ is not None and v_[0] + to_poly(x[2][1], atomize) == HALF * Poly.const(2):
                         okm = True
                 # first element of the sub-slice that starts after the two halves
                 if x[0] == "call" and x[1].endswith("<impl [T]>::first") and len(x[2]) == 1:
@@ -802,7 +832,9 @@ def run(ctx):
                         ctx.fail("C04-R5", lm.path, "LN_GAIN value", "LN_GAIN value %s stores %s" % (vals, show(val)), cm.loc_of(st["span"]))
                 else:
                     srcs = show(val)
-                    if "parse(" in srcs and ".0.1" in srcs and "split_once" in srcs:
+                    # a local helper's merged return slot: look at every value it can carry
+                    alts_ = alternatives(eb, val) if any(x[0] == "var" for x in walk(val)) else [val]
+                    if alts_ and all("parse(" in show(a_) and ".0.1" in show(a_) and "split_once" in show(a_) for a_ in alts_):
                         ctx.ok("C04-R5", "%s=<v> -> %s = v.parse()" % (key, f), cm.loc_of(st["span"]))
                     else:
                         ctx.fail("C04-R5", lm.path, "option " + key, "%s <- %s, expected the parsed option value" % (f, srcs[:100]), cm.loc_of(st["span"]))
